@@ -14,7 +14,7 @@ MANIFEST = dict(
     text=("Mixed. PROVED for all centres, radii and normals (symbolic reals), per resolution n (3..12 quick, 3..24 thorough): get_circle_point_list returns n points, each in the plane through the centre orthogonal to the normal, each at distance r "
           "(relative 1e-9: the code's cos / sin values are doubles), consecutive points one chord 2 r sin(pi/n) apart and all turning the same way about the normal (equal angular steps), never raising for any non-zero normal - including normals along or "
           "opposite to a coordinate axis - and leaving its arguments unchanged; n <= 2 raises. Parallelogram hands exactly the four corners b, b+v1, b+v2, b+v1+v2 to the polygon constructor and Parallelepiped exactly the six faces whose corners are the eight "
-          "points b + {0,1}v1 + {0,1}v2 + {0,1}v3 (each vertex in three faces), arguments unchanged. BOUNDED (labelled): vertex / edge / face counts, closedness, vertices on the specified circle / cylinder / cone / sphere, area and volume closed forms "
+          "points b + {0,1}v1 + {0,1}v2 + {0,1}v3 (each vertex in three faces), arguments unchanged. The offsets of the circle points from the centre depend on (normal, radius, n) only (n = 3..5; thorough ..12); against that contract Cylinder hands the polyhedron constructor exactly the circle about c + h, the circle about c and the n parallelograms top_i, top_i+1, bottom_i+1, bottom_i with top_k = bottom_k + h, and Cone the base circle and the n triangles apex, base_i, base_i+1 (n = 3, 4, 6, 10; thorough 3..12, 24), sharing no Point with the arguments. BOUNDED (labelled): vertex / edge / face counts, closedness, vertices on the specified circle / cylinder / cone / sphere, area and volume closed forms "
           "(relative 1e-9) of Circle, Cylinder, Cone, Sphere and Parallelepiped over centres, radii, the 26 lattice directions plus near-axis directions, n = 3..24, n1 = 3..12, n2 = 2..5 - these go through both constructors."),
     note="A3: acos only through its bracketed comparisons with SMALL_ANGLE and pi - SMALL_ANGLE; cos / sin of the concrete step angles are the doubles the code computes. A1, A5. Shape bound: n as stated.",
     technique="contract-based deductive verification of the point generators (z3, ghost scalars) + labelled bounded stand-in with closed-form references for the assembled bodies",
@@ -68,6 +68,14 @@ def circle_harness(n):
     return h
 
 
+def _native_same_points(points, expected, tol=1e-9):
+    """concrete mode (replay / random search run the real, un-stubbed constructors): the same finite point set"""
+    pts = [tuple(float(x) for x in SP.vec(p)) for p in points]
+    exp = [tuple(float(x) for x in e) for e in expected]
+    near = lambda a, b: all(abs(x - y) <= tol * max(1.0, abs(x), abs(y)) for x, y in zip(a, b))
+    return len(pts) == len(exp) and all(any(near(a, b) for b in exp) for a in pts) and all(any(near(a, b) for a in pts) for b in exp)
+
+
 def h_parallelogram(vc):
     import importlib
     g = C.G()
@@ -79,6 +87,9 @@ def h_parallelogram(vc):
     vc.ensure("Parallelogram(independent vectors) does not raise", out.returned)
     if not out.returned:
         vc.note(repr(out.value))
+        return
+    if not vc.symbolic:
+        vc.ensure("corners are b, b+v1, b+v2, b+v1+v2", _native_same_points(out.value.points, [bv, SP.add(bv, a1), SP.add(bv, a2), SP.add(SP.add(bv, a1), a2)]))
         return
     pts = getattr(out.value, "_ctor_points", None)
     ok = pts is not None and len(pts) == 4
@@ -95,10 +106,15 @@ def h_parallelepiped(vc):
     bv, a1, a2, a3 = SP.vec(b), SP.vec(v1), SP.vec(v2), SP.vec(v3)
     for x, y in ((a1, a2), (a1, a3), (a2, a3)):
         vc.assume(Not(SP.collinear(x, y)), "edge vectors pairwise not parallel")
+    vc.assume(Not(SP.eqz(SP.det3(a1, a2, a3))), "edge vectors independent (a flat body is rejected: C15)")
     out = vc.call(g.Parallelepiped, b, v1, v2, v3)
     vc.ensure("Parallelepiped(independent vectors) does not raise", out.returned)
     if not out.returned:
         vc.note(repr(out.value))
+        return
+    if not vc.symbolic:
+        vc.ensure("the eight corners are b + i v1 + j v2 + k v3", _native_same_points(out.value.point_set, [SP.add(SP.add(SP.add(bv, SP.scale(i, a1)), SP.scale(j, a2)), SP.scale(k, a3)) for i in (0, 1) for j in (0, 1) for k in (0, 1)])
+                  and len(out.value.convex_polygons) == 6)
         return
     faces = getattr(out.value, "_ctor_faces", None)
     ok = faces is not None and len(faces) == 6 and all(getattr(f, "_ctor_points", None) is not None and len(f._ctor_points) == 4 for f in faces)
@@ -111,6 +127,104 @@ def h_parallelepiped(vc):
                       [corner(1, 1, 1), corner(1, 0, 1), corner(1, 1, 0), corner(1, 0, 0)], [corner(1, 1, 1), corner(0, 1, 1), corner(1, 1, 0), corner(0, 1, 0)]]
     for fi, (f, exp) in enumerate(zip(faces, expected_faces)):
         vc.ensure("face %d has the expected four corners" % fi, And(*[SP.veq(SP.vec(p), e) for p, e in zip(f._ctor_points, exp)]))
+
+
+def circle_translation_harness(n):
+    """the offsets of the circle points from the centre depend on (normal, radius, n) only: moving the centre moves every point along"""
+    def h(vc):
+        g = C.G()
+        c = C.P(vc, "c")
+        t = C.V(vc, "t")
+        nrm = C.V(vc, "n")
+        r = vc.real("r")
+        vc.assume(SP.vnonzero(SP.vec(nrm)), "normal != 0")
+        vc.assume(SP.gtz(r), "radius > 0")
+        c2 = g.Point(*SP.add(SP.vec(c), SP.vec(t)))
+        o1 = vc.call(g.get_circle_point_list, c, nrm, r, n)
+        o2 = vc.call(g.get_circle_point_list, c2, nrm, r, n)
+        vc.ensure("both calls return", o1.returned and o2.returned)
+        if not (o1.returned and o2.returned):
+            return
+        ok = len(o1.value) == n and len(o2.value) == n
+        vc.ensure("both calls return n points", ok)
+        if ok:
+            vc.ensure("point i about the moved centre = point i about the centre + the displacement", And(*[SP.veq(SP.vec(q), SP.add(SP.vec(p), SP.vec(t))) for p, q in zip(o1.value, o2.value)]))
+            vc.ensure("the lists share no Point object", not (set(map(id, o1.value)) & set(map(id, o2.value))) and len(set(map(id, o1.value))) == n)
+
+    return h
+
+
+def x_circle_points(center, normal, radius, n=10):
+    """contract of get_circle_point_list as used by Cylinder / Cone (proved above): n >= 3, normal != 0; n new Points center + u_i where the offsets u_i depend on
+    (normal, radius, n) only and are orthogonal to the normal"""
+    from g3dvc import sym as S
+    g = C.G()
+    vc = S.engine()
+    vc.hit("get_circle_point_list")
+    vc.oblige("get_circle_point_list is called with n >= 3", n >= 3)
+    vc.oblige("get_circle_point_list is called with a non-zero normal", SP.vnonzero(SP.vec(normal)))
+    key = ("circle", n, S.term(Sym(radius)).get_id()) + tuple(S.term(x).get_id() for x in SP.vec(normal))
+    offs = vc.sqrt_cache.get(key)
+    if offs is None:
+        offs = [tuple(vc.fresh("u%d" % i) for _ in range(3)) for i in range(n)]
+        for u in offs:
+            vc.assume(SP.eqz(SP.dot(u, SP.vec(normal))), "get_circle_point_list contract: offsets orthogonal to the normal")
+        vc.sqrt_cache[key] = offs
+    vc.record("circle", (SP.vec(center), offs))
+    return [g.Point(*SP.add(SP.vec(center), u)) for u in offs]
+
+
+def cylinder_cone_harness(kind, n):
+    def h(vc):
+        g = C.G()
+        c = C.P(vc, "c")
+        hv = C.V(vc, "h")
+        r = vc.real("r")
+        cv, hh = SP.vec(c), SP.vec(hv)
+        vc.assume(SP.vnonzero(hh), "height vector != 0")
+        vc.assume(SP.gtz(r), "radius > 0")
+        out = vc.call(g.Cylinder if kind == "Cylinder" else g.Cone, c, r, hv, n)
+        vc.ensure("%s(n=%d) does not raise" % (kind, n), out.returned)
+        if not out.returned:
+            vc.note(repr(out.value))
+            return
+        nf = n + 2 if kind == "Cylinder" else n + 1
+        if not vc.symbolic:
+            base = [SP.vec(p) for p in g.get_circle_point_list(c, hv, r, n)]
+            exp = base + ([SP.add(p, hh) for p in base] if kind == "Cylinder" else [SP.add(cv, hh)])
+            vc.ensure("%s: %d faces over the circle points about c%s" % (kind, nf, " and about c + h" if kind == "Cylinder" else " and the apex c + h"),
+                      len(out.value.convex_polygons) == nf and _native_same_points(out.value.point_set, exp, 1e-7))
+            return
+        faces = getattr(out.value, "_ctor_faces", None)
+        ok = faces is not None and len(faces) == nf and all(getattr(f, "_ctor_points", None) is not None for f in faces)
+        vc.ensure("the polyhedron constructor receives %d faces" % nf, ok)
+        if not ok:
+            return
+        recs = vc.log.get("circle", [])
+        offs = recs[0][1] if recs else None
+        vc.ensure("all circle point lists use the same offsets (same normal, radius, n)", bool(recs) and all(rc[1] is offs for rc in recs))
+        if not recs:
+            return
+        bottom = [SP.add(cv, u) for u in offs]
+        top = [SP.add(SP.add(cv, hh), u) for u in offs]
+        apex = SP.add(cv, hh)
+        eqpts = lambda f, exp: len(f._ctor_points) == len(exp) and And(*[SP.veq(SP.vec(p), e) for p, e in zip(f._ctor_points, exp)])
+        if kind == "Cylinder":
+            vc.ensure("face 0 is the circle about the top centre c + h", eqpts(faces[0], top))
+            vc.ensure("face 1 is the circle about the bottom centre c", eqpts(faces[1], bottom))
+            for i in range(n):
+                j = (i + 1) % n
+                vc.ensure("side face %d joins top_i, top_i+1, bottom_i+1, bottom_i, where top_k = bottom_k + h (a parallelogram)" % i, eqpts(faces[2 + i], [top[i], top[j], bottom[j], bottom[i]]))
+        else:
+            vc.ensure("face 0 is the base circle about c", eqpts(faces[0], bottom))
+            for i in range(n):
+                j = (i + 1) % n
+                vc.ensure("side face %d joins the apex c + h with base points i and i+1" % i, eqpts(faces[1 + i], [apex, bottom[i], bottom[j]]))
+        pts_all = [p for f in faces for p in f._ctor_points]
+        from g3dvc.engine import mutable_ids
+        vc.ensure("no face shares a Point object with the arguments", not (set(map(id, pts_all)) & {id(c)}) and not (mutable_ids(hv) & set().union(*[mutable_ids(p) for p in pts_all])))
+
+    return h
 
 
 def _ctor_setup(rb):
@@ -137,6 +251,14 @@ def groups(tier):
         gs.append(Group("get_circle_point_list[n=%d, all centres / radii / normals]" % n, circle_harness(n), ["Geometry3D.geometry.polygon:get_circle_point_list"], stubs=stubs,
                         world="COORD", timeout_s=1200, prove_ms=40000))
     ex = [(C.T_PAR, C.x_parallel), (C.T_VEQ, C.x_vector_eq), (C.T_LENGTH, C.x_length)]
+    for n in ((3, 4, 5) if tier == "quick" else range(3, 13)):
+        gs.append(Group("get_circle_point_list[n=%d, offsets independent of the centre]" % n, circle_translation_harness(n), ["Geometry3D.geometry.polygon:get_circle_point_list"], stubs=stubs,
+                        world="COORD", timeout_s=600, prove_ms=30000))
+    cstubs = [("Geometry3D.geometry.polygon:get_circle_point_list", x_circle_points)]
+    for n in ((3, 4, 6, 10) if tier == "quick" else list(range(3, 13)) + [24]):
+        for kind in ("Cylinder", "Cone"):
+            gs.append(Group("%s[n=%d, faces handed to the constructor]" % (kind, n), cylinder_cone_harness(kind, n), ["Geometry3D.geometry.polyhedron:ConvexPolyhedron." + kind, "Geometry3D.geometry.polygon:ConvexPolygon.Circle"],
+                            stubs=cstubs, world="COORD", timeout_s=300, setup=_ctor_setup, expect_hits=["get_circle_point_list"]))
     gs.append(Group("Parallelogram[corner points]", h_parallelogram, ["Geometry3D.geometry.polygon:ConvexPolygon.Parallelogram"], stubs=ex, world="COORD", timeout_s=300, setup=_ctor_setup))
     gs.append(Group("Parallelepiped[faces and corner points]", h_parallelepiped, ["Geometry3D.geometry.polyhedron:ConvexPolyhedron.Parallelepiped"], stubs=ex, world="COORD", timeout_s=300, setup=_ctor_setup))
     return gs
